@@ -53,6 +53,14 @@ def perturbed(ctx, t, bi, n):
         if ss:
             i, info = r.choice(ss)
             out.append(("generic helper instantiated badly: " + stmt, tg.render(t, plant_s=(i, [stmt]))))
+    # a local defined as a call that takes a function literal: the other arguments are resolved BEFORE the new variable
+    # exists (well typed when an outer variable of that name exists, an unresolved name otherwise)
+    for lines in (['zsh := 5', 'if true do', '    zsh := zapply(fn x: int -> int do x + 1 end, zsh)', '    print(zsh + 1)', 'end'],
+                  ['zsh2 := zapply(fn x: int -> int do x + 1 end, zsh2)', 'print(zsh2 + 1)'],
+                  ['zsh3 := 2', 'zf3 :: fn do', '    zsh3 := zapply(fn x: int -> int do x * 2 end, zsh3) + 1', '    print(zsh3)', 'end', 'zf3()']):
+        if ss:
+            i, info = r.choice(ss)
+            out.append(("definition through a wrapper call: " + lines[0], tg.render(t, plant_s=(i, lines))))
     # the value of an if / case expression one of whose branches ends without a value, used
     for lines in (['zv1 := 0', 'zv2 := if false do', '    1', 'else do', '    zv1 = 2', 'end', 'print(zv2 + 1)'],
                   ['zv3 := case ZEV do', '    P x -> zq :: x end', '    Q -> 1 end', 'end', 'print(zv3 + 1)'],
